@@ -70,6 +70,7 @@ pub fn noop_ids() -> Vec<Pubkey> {
         solana_program::pubkey!("T1TANpTeScyeqVzzgNViGDNrkQ6qHz9KrSBS4aNXvGT"),
         solana_program::pubkey!("dRiftyHA39MWEi3m9aunc5MzRF1JYuBsbn6VPcn33UH"),
         kamino_mocks::kamino_lending::ID,
+        solend_mocks::ID,
     ]
 }
 
@@ -149,7 +150,7 @@ impl program_stubs::SyscallStubs for Stubs {
                     if (data_changed || debited || owner_changed) && !owned {
                         // marginfi itself CPIs further (token transfers): accounts changed by its callees
                         // were already checked there, so only direct callees that are leaf programs are judged
-                        if ix.program_id != marginfi::ID {
+                        if ix.program_id != marginfi::ID && extra_program(&ix.program_id).is_none() {
                             return Err(ProgramError::Custom(EXTERNAL_MODIFIED_CODE));
                         }
                     }
@@ -158,6 +159,23 @@ impl program_stubs::SyscallStubs for Stubs {
         }
         r
     }
+}
+
+/// Extra native programs (fake third-party venues, see `venues/`): consulted by `dispatch` before the do-nothing
+/// ids. A registered program may CPI further (token transfers), so — like marginfi — it is not judged by the
+/// "only the owner may change an account" rule at its own level (its callees are judged at theirs).
+pub type ProcessFn = fn(&Pubkey, &[AccountInfo], &[u8]) -> ProgramResult;
+static EXTRA_PROGRAMS: std::sync::RwLock<Vec<(Pubkey, ProcessFn)>> = std::sync::RwLock::new(Vec::new());
+pub fn register_program(pid: Pubkey, f: ProcessFn) {
+    let mut g = EXTRA_PROGRAMS.write().unwrap();
+    if let Some(e) = g.iter_mut().find(|e| e.0 == pid) {
+        e.1 = f;
+    } else {
+        g.push((pid, f));
+    }
+}
+fn extra_program(pid: &Pubkey) -> Option<ProcessFn> {
+    EXTRA_PROGRAMS.read().unwrap().iter().find(|e| e.0 == *pid).map(|e| e.1)
 }
 
 static INIT: Once = Once::new();
@@ -191,6 +209,9 @@ fn dispatch(pid: &Pubkey, ais: &[AccountInfo], data: &[u8]) -> ProgramResult {
             ais.iter().map(|a| AccountMeta { pubkey: *a.key, is_signer: a.is_signer, is_writable: a.is_writable }).collect();
         let ix = Instruction { program_id: inner_pid, accounts: metas, data: data[32..].to_vec() };
         solana_program::program::invoke(&ix, ais)
+    } else if let Some(f) = extra_program(pid) {
+        let ais: &[AccountInfo] = unsafe { std::mem::transmute(ais) };
+        f(pid, ais, data)
     } else if noop_ids().contains(pid) {
         Ok(())
     } else {
